@@ -248,6 +248,23 @@ impl Superset for syn::BoundLifetimes {
     }
 }
 
+/// Rebuilds a punctuated sequence out of substituted elements keeping the trailing punctuation of
+/// the original. Equality of [`syn::punctuated::Punctuated`] takes trailing punctuation into account
+pub(crate) fn repunctuate<T, P: Default>(
+    original: &syn::punctuated::Punctuated<T, P>,
+    elems: impl IntoIterator<Item = T>,
+) -> syn::punctuated::Punctuated<T, P> {
+    let mut elems = elems
+        .into_iter()
+        .collect::<syn::punctuated::Punctuated<T, P>>();
+
+    if original.trailing_punct() && !elems.empty_or_trailing() {
+        elems.push_punct(P::default());
+    }
+
+    elems
+}
+
 impl Substitute for syn::BoundLifetimes {
     fn substitute(
         &self,
@@ -258,7 +275,7 @@ impl Substitute for syn::BoundLifetimes {
             .map(|l| l.substitute(substitutions))
             .multi_cartesian_product()
             .map(|lifetimes| Self {
-                lifetimes: lifetimes.into_iter().collect(),
+                lifetimes: repunctuate(&self.lifetimes, lifetimes),
                 ..self.clone()
             })
             .collect()
